@@ -24,8 +24,8 @@ def decNames (f : String) : Option (List String) := mapM? decName (splitList f)
 def parsePayload (s : String) : Option Payload :=
   if s == "-" then some .empty
   else if s == "eq" then some .eq
-  else if s == "sh" then some .short
-  else if s == "bad" then some .bad
+  else if s == "sh" || s == "sh1" || s == "sh3" then some .short
+  else if s == "bad" || s == "bad5" || s == "badp" then some .bad
   else if s.startsWith "v" then
     match hexDecode (s.drop 1).toString with
     | some [] => none
